@@ -387,9 +387,9 @@ def _load_theorems(pid):
 
 
 CONN_PROFILES = [
-    {"name": "conn-client-flow", "quick": 80, "thorough": 1500, "shards": {"quick": 1, "thorough": 8}},
-    {"name": "conn-client", "quick": 80, "thorough": 1500, "shards": {"quick": 1, "thorough": 8}},
-    {"name": "conn-server", "quick": 80, "thorough": 1500, "shards": {"quick": 1, "thorough": 8}},
+    {"name": "conn-client-flow", "quick": 80, "thorough": 500, "shards": {"quick": 1, "thorough": 10}},
+    {"name": "conn-client", "quick": 80, "thorough": 500, "shards": {"quick": 1, "thorough": 10}},
+    {"name": "conn-server", "quick": 80, "thorough": 500, "shards": {"quick": 1, "thorough": 10}},
     {"name": "conn-c09-client", "quick": 100, "thorough": 1500, "shards": {"quick": 1, "thorough": 4}},
     {"name": "conn-c09-server", "quick": 100, "thorough": 1500, "shards": {"quick": 1, "thorough": 4}},
 ]
@@ -450,11 +450,11 @@ E2E_ENDING = [
 # mutated histories (tools/connfuzz.py): hostile / odd peer frames, handle calls the generator never makes,
 # transport events, builder options.  Used where the monitors' verdict does not depend on a well-behaved peer.
 FUZZ = [
-    {"name": "conn-client", "label": "fuzz-conn-client", "quick": 80, "thorough": 1500, "shards": {"quick": 1, "thorough": 8},
+    {"name": "conn-client", "label": "fuzz-conn-client", "quick": 80, "thorough": 500, "shards": {"quick": 1, "thorough": 8},
      "mutate": {"rate": 0.15, "kinds": ["peer", "user", "io", "cfg"]}},
-    {"name": "conn-server", "label": "fuzz-conn-server", "quick": 80, "thorough": 1500, "shards": {"quick": 1, "thorough": 8},
+    {"name": "conn-server", "label": "fuzz-conn-server", "quick": 80, "thorough": 500, "shards": {"quick": 1, "thorough": 8},
      "mutate": {"rate": 0.15, "kinds": ["peer", "user", "io", "cfg"]}},
-    {"name": "conn-client-flow", "label": "fuzz-conn-client-flow", "quick": 60, "thorough": 1000, "shards": {"quick": 1, "thorough": 8},
+    {"name": "conn-client-flow", "label": "fuzz-conn-client-flow", "quick": 60, "thorough": 400, "shards": {"quick": 1, "thorough": 8},
      "mutate": {"rate": 0.1, "kinds": ["peer", "user", "io"]}},
 ]
 CONN_EXTRA = {
@@ -484,3 +484,21 @@ else:
     PROPS["C09"] = conn_prop(["H2V.Props.C12"], _c09_codec, CONN_PROFILES, assumptions=CONN_ASSUMPTIONS)
 C09_PROFILES = [dict(p, quick=(250 if "c09" in p["name"] else 40)) for p in CONN_PROFILES]
 PROPS["C09"]["profiles"] = C09_PROFILES
+
+# C08, pure layers: the decoders are total and terminate on every byte string (theorems of C11/C12); the connection-level
+# half (recorded assert/unwrap sites, loop fuel) comes with H2V/Props/C08.lean
+_c08_pure = [("H2V.Props.C11", "H2V.Props.C11.decode_never_panics"), ("H2V.Props.C11", "H2V.Props.C11.huffman_leaf_progress"),
+             ("H2V.Props.C12", "H2V.Props.C12.reader_chunk_invariance")]
+if "C08" in PROPS:
+    PROPS["C08"]["theorems"] = _c08_pure + PROPS["C08"]["theorems"]
+    PROPS["C08"]["lean_targets"] = ["H2V.Props.C11", "H2V.Props.C12"] + PROPS["C08"]["lean_targets"]
+else:
+    PROPS["C08"] = conn_prop(["H2V.Props.C11", "H2V.Props.C12"], _c08_pure, CONN_PROFILES, assumptions=CONN_ASSUMPTIONS)
+    PROPS["C08"].update(CONN_EXTRA["C08"])
+
+# development aid only (never set by a registered command): evaluate seeded changes against the monitors and the
+# correspondence of a property whose theorems are not in yet
+for _pid in [x for x in os.environ.get("H2V_DEV_CLAIM", "").split(",") if x]:
+    if _pid not in PROPS:
+        PROPS[_pid] = conn_prop([], [], CONN_PROFILES, assumptions=CONN_ASSUMPTIONS)
+        PROPS[_pid].update(CONN_EXTRA.get(_pid, {}))
